@@ -160,6 +160,7 @@ Mulh = type_a("mulh", 0x10, 1)
 Mulhu = type_a("mulhu", 0x10, 3)
 Mulhsu = type_a("mulhsu", 0x10, 2)
 
+Bsrl = type_a("bsrl", 0x11, 0x000)
 Bsra = type_a("bsra", 0x11, 0x200)
 Bsll = type_a("bsll", 0x11, 0x400)
 
@@ -694,14 +695,20 @@ def pattern_shl(context, tree, c0, c1):
 
 
 @isa.pattern("reg", "SHRI8(reg, reg)", size=4)
-@isa.pattern("reg", "SHRU8(reg, reg)", size=4)
 @isa.pattern("reg", "SHRI16(reg, reg)", size=4)
-@isa.pattern("reg", "SHRU16(reg, reg)", size=4)
 @isa.pattern("reg", "SHRI32(reg, reg)", size=4)
-@isa.pattern("reg", "SHRU32(reg, reg)", size=4)
 def pattern_shr(context, tree, c0, c1):
     dst = context.new_reg(MicroBlazeRegister)
     context.emit(Bsra(dst, c0, c1))
+    return dst
+
+
+@isa.pattern("reg", "SHRU8(reg, reg)", size=4)
+@isa.pattern("reg", "SHRU16(reg, reg)", size=4)
+@isa.pattern("reg", "SHRU32(reg, reg)", size=4)
+def pattern_shr_unsigned(context, tree, c0, c1):
+    dst = context.new_reg(MicroBlazeRegister)
+    context.emit(Bsrl(dst, c0, c1))
     return dst
 
 
